@@ -71,7 +71,7 @@ def add_duration_tabulate(ctx) -> bool | None:
     greg = lambda y: y % 4 == 0 and (y % 100 != 0 or y % 400 == 0)      # noqa: E731
     bad, n = [], 0
     try:
-        glob = {"date": _dt.date, "datetime": _dt.datetime, "timedelta": _dt.timedelta, "copysign": math.copysign, "is_leap": greg,
+        glob = {**minieval.module_consts(m), "date": _dt.date, "datetime": _dt.datetime, "timedelta": _dt.timedelta, "copysign": math.copysign, "is_leap": greg,
                 "DAYS_PER_MONTHS": core.const("constants", "DAYS_PER_MONTHS"), "RuntimeError": ValueError, "ValueError": ValueError, "math": minieval.Stub(copysign=math.copysign)}
         funcs = {st.name: st for st in m.top() if isinstance(st, ast.FunctionDef)}
         for base, kw in _add_cases():
